@@ -576,6 +576,37 @@ def _inject_task(task, res):
             res["violations"].append({"signature": f"{cls}:{sig}", "summary": bad, "replay": {"task": task, "j": j}})
         else:
             res["discharged"] += 1
+    # the same object solved twice: an inconclusive second run must not keep the solved state of the first
+    if task["status"] != "custom-alarm":
+        for j in sorted({0, n - 1}):
+            if helper[j]:
+                continue
+            m = build()
+            with hx.capture():
+                ok1 = m.solve()
+            if not ok1:
+                continue
+            hit = []
+
+            def answers2(idx, lp, h, j=j, hit=hit):
+                if idx == j:
+                    hit.append(1)
+                    return {"status": task["status"], "skip_native": True}
+                return None
+            try:
+                with hx.capture(answers2):
+                    ok2 = m.solve()
+            except SystemExit:
+                ok2 = False
+            if not hit:
+                continue          # the second run needed fewer solver invocations (cached bounds): nothing was injected
+            res["obligations"] += 1
+            res["extra"]["traces_validated_against_impl"] = res["extra"].get("traces_validated_against_impl", 0) + 1
+            if ok2 or _solved_safe(m):
+                res["violations"].append({"signature": f"{cls}:stale-solved-state-after-inconclusive-re-solve",
+                                          "summary": f"solved once, then solve() again with status {task['status']} at invocation {j}: solve() returned {ok2}, is_solved() still reports solved", "replay": {"task": task, "j": j, "resolve": True}})
+            else:
+                res["discharged"] += 1
     res["nontrivial"] += 1 if n >= 2 else 0
     return res
 
